@@ -42,7 +42,7 @@ theorem inbView_failDials (peer : Peer) (l : List Ctx) (s : State) :
 /-- Handlers of the outbound path do not touch the inbound path. -/
 theorem inbView_step (s : State) (i : Input)
     (h1 : ∀ p r o d a, i ≠ .send p r o d a) (h2 : ∀ p, i ≠ .inboundSubstream p)
-    (h3 : ∀ f r, i ≠ .inboundRead f r) (h4 : ∀ f, i ≠ .responseDone f) :
+    (h3 : ∀ f r, i ≠ .inboundRead f r) (h4 : ∀ f, i ≠ .responseDone f) (h5 : i ≠ .clogged) :
     inbView (step s i) = inbView s := by
   cases i with
   | send peer request opts dialAns openAns => exact absurd rfl (h1 _ _ _ _ _)
@@ -77,6 +77,7 @@ theorem inbView_step (s : State) (i : Input)
   | inboundRead f request => exact absurd rfl (h3 _ _)
   | responseDone f => exact absurd rfl (h4 _)
   | responderWrites sid response => rfl
+  | clogged => exact absurd rfl h5
 
 theorem Inb.of_view {s s' : State} (h : Inb s) (hv : inbView s' = inbView s)
     (hlog : ∀ r, receivedCount s'.log r = receivedCount s.log r) : Inb s' := by
@@ -219,9 +220,12 @@ theorem inb_step (s : State) (i : Input) (hi : Inv s) (h : Inb s) (ha : Allowed 
   · obtain ⟨f, rfl⟩ := c4
     exact h.congr (Nat.le_refl _) rfl (fun _ => rfl) rfl
       (fun r => List.Sublist.countP_le List.erase_sublist)
+  by_cases c5 : i = .clogged
+  · subst c5
+    exact h.congr (Nat.le_succ _) rfl (fun _ => rfl) rfl (fun _ => Nat.le_refl _)
   · exact h.of_view
       (inbView_step s i (fun p r o d a hc => c1 ⟨p, r, o, d, a, hc⟩) (fun p hc => c2 ⟨p, hc⟩)
-        (fun f r hc => c3 ⟨f, r, hc⟩) (fun f hc => c4 ⟨f, hc⟩))
+        (fun f r hc => c3 ⟨f, r, hc⟩) (fun f hc => c4 ⟨f, hc⟩) c5)
       (received_step s i (fun f r hc => c3 ⟨f, r, hc⟩))
 
 theorem reach_inb (m : Option Nat) (s : State) (h : Reach m s) : Inb s := by
